@@ -111,13 +111,14 @@ type gCfg struct {
 	freqZero bool // allow freq == 0
 	maxAP    int  // array positions per location / stored value
 	idBase   string
-	symTyp   bool  // stored type byte symbolic (else 't')
-	storeAll bool  // every storable occurrence is stored (no symbolic bit)
-	idDV     bool  // the _id field is indexed with doc values (symbolic per batch)
-	fixAP    bool  // every location / stored value has exactly maxAP array positions
-	allWide  bool  // no narrow-number assumption at all (corpus batches pin every number)
-	noFx     bool  // freq of hits with locations is exactly the number of locations
-	valLens  []int // stored value lengths, cycled over (doc+field+occurrence); default 0..3
+	symTyp   bool     // stored type byte symbolic (else 't')
+	storeAll bool     // every storable occurrence is stored (no symbolic bit)
+	idDV     bool     // the _id field is indexed with doc values (symbolic per batch)
+	fixAP    bool     // every location / stored value has exactly maxAP array positions
+	ids      []string // external ids of the first documents (default idBase + number)
+	allWide  bool     // no narrow-number assumption at all (corpus batches pin every number)
+	noFx     bool     // freq of hits with locations is exactly the number of locations
+	valLens  []int    // stored value lengths, cycled over (doc+field+occurrence); default 0..3
 }
 
 type gen struct {
@@ -173,6 +174,9 @@ func vGenBatch(cfg gCfg) ([]index.Document, *sSpec) {
 	var pendingDV []sPendingDV
 	for d := 0; d < cfg.nDocs; d++ {
 		id := fmt.Sprint(cfg.idBase, d)
+		if d < len(cfg.ids) {
+			id = cfg.ids[d]
+		}
 		ds := &sDocSpec{id: id}
 		idf := vIDField(id)
 		if idDV {
@@ -251,7 +255,11 @@ func vGenBatch(cfg gCfg) ([]index.Document, *sSpec) {
 						lt := fmt.Sprint(tt, "_", l)
 						nap := 0
 						if cfg.maxAP > 0 {
-							nap = vChoice(cfg.prefix+"nap"+lt, cfg.maxAP+1)
+							if cfg.fixAP {
+								nap = cfg.maxAP
+							} else {
+								nap = vChoice(cfg.prefix+"nap"+lt, cfg.maxAP+1)
+							}
 						}
 						locF := gf.locField
 						if len(gf.locFields) > 0 {
